@@ -6,6 +6,8 @@ runs the real code on the same requests and diffs the observations.
 import Lean.Data.Json
 import DTML.Batch
 import DTML.Quote
+import DTML.VarPipe
+import DTML.ExtImpl
 open Lean DTML
 
 namespace Driver
@@ -69,6 +71,50 @@ def opQuote (j : Json) : Except String Json := do
     ("plain", Json.str (String.ofList (Quote.renderSimple s))),
     ("unesc", Json.str (String.ofList (Quote.unescape5 (Quote.escape s))))]
 
+def getOptText (j : Json) (k : String) : Option (List Char) :=
+  match j.getObjValAs? String k with
+  | .ok s => some s.toList
+  | .error _ => none
+
+def parseVal (j : Json) : Except String (Option VarPipe.Val) := do
+  let kind ← getStr j "kind"
+  match kind with
+  | "undefined" => return none
+  | "none" => return some .none
+  | "int" => return some (.int (← getInt j "i"))
+  | "str" => return some (.str (← getStr j "s").toList (← getBool j "t"))
+  | "obj" =>
+    let ms ← j.getObjVal? "methods"
+    let ml ← match ms with
+      | .obj kvs => pure (kvs.toList.map fun (k, v) => (k, (v.getStr?.toOption.getD "").toList))
+      | _ => throw "methods"
+    return some (.obj (← getStr j "s").toList (← getBool j "truthy") ml)
+  | _ => throw s!"bad value kind {kind}"
+
+def errName : VarPipe.Err → String
+  | .typeError => "TypeError" | .attributeError => "AttributeError"
+  | .valueError => "ValueError" | .keyError => "KeyError"
+
+def isInfix (p s : List Char) : Bool :=
+  (List.range (s.length + 1)).any fun i => p.isPrefixOf (s.drop i)
+
+/-- op "var": the dtml-var pipeline on one value -/
+def opVar (j : Json) : Except String Json := do
+  let written ← j.getObjValAs? (Array String) "written"
+  let sp : VarPipe.Spec := {
+    written := written.toList, missing := getOptText j "missing", null := getOptText j "null",
+    fmt := getOptText j "fmt", size := getOptText j "size", etc := getOptText j "etc",
+    cfmt := (getOptText j "cfmt").getD ['s'] }
+  let v ← parseVal (← j.getObjVal? "value")
+  match VarPipe.render ExtImpl.ext sp v with
+  | none => return Json.mkObj [("oom", Json.bool true)]
+  | some (.error e) => return Json.mkObj [("err", Json.str (errName e))]
+  | some (.ok t) =>
+    if isInfix ExtImpl.oomMarker t then return Json.mkObj [("oom", Json.bool true)]
+    else return Json.mkObj [("out", Json.str (String.ofList t)),
+      ("applied", Json.arr ((VarPipe.applied sp).map Json.str).toArray),
+      ("simple", Json.num (VarPipe.simpleKind sp))]
+
 def handle (j : Json) : Except String Json := do
   let op ← getStr j "op"
   match op with
@@ -77,6 +123,7 @@ def handle (j : Json) : Except String Json := do
   | "follow" => opFollow j
   | "lazy" => opLazy j
   | "quote" => opQuote j
+  | "var" => opVar j
   | "ping" => return Json.str "pong"
   | _ => throw s!"unknown op {op}"
 
